@@ -61,7 +61,28 @@ TranscOK(ev) ==
          ELSE ~got.n /\ PowOK(ev.y.n, ev.y.c, ev.y.e, ev.h.n, ev.h.c, ev.h.e, got.c, got.e, p)
     [] OTHER -> TRUE
 \* ---------------- family "a": one Context call ----------------
+\* Decimal.Neg / Abs / Set / Reduce: no Context, no rounding, no NaN prologue (C05, C06, C19)
+DOps == {"dneg", "dabs", "dset", "dreduce"}
+Verdict_d(ev) ==
+  LET x == ev.x  got == ev.res
+      wantN == CASE ev.op = "dabs" -> FALSE
+                 [] ev.op = "dneg" -> IF ZeroD(x) THEN FALSE ELSE ~x.n
+                 [] ev.op = "dreduce" -> IF ZeroD(x) THEN FALSE ELSE x.n
+                 [] OTHER -> x.n
+  IN IF ev.panic # "" THEN {"panic"}
+     ELSE Names(<<
+       <<"wf",    got.f \in {FIN, INF, SNAN, QNAN} /\ got.cs >= 0>>,
+       <<"dval",  /\ got.f = x.f /\ got.n = wantN /\ ev.fl = 0 /\ ev.err = ""
+                  /\ (x.f = FIN => IF ev.op = "dreduce"
+                                   THEN /\ NumEq(got.c, got.e, x.c, x.e)
+                                        /\ (IF IsZero(got.c) THEN got.e = 0 ELSE LastDigit(got.c) # 0)
+                                        /\ ev.cnt = (IF IsZero(x.c) THEN 0 ELSE TrailingZeros(x.c))
+                                   ELSE got.c = x.c /\ got.e = x.e)>>,
+       <<"ctxframe", ev.ctxa = ev.ctx>>,
+       <<"frame", /\ (ev.al \notin {"dx", "dxy"} => SameRepr(ev.xa, ev.x))>> >>)
+
 Verdict_a(ev) ==
+  IF ev.op \in DOps THEN Verdict_d(ev) ELSE
   LET got == ev.res
       w == Want(ev.op, ev.ctx, ev.x, ev.y, ev.q)
       trapped == And(ev.fl, ev.ctx.t) # 0
@@ -126,7 +147,9 @@ Verdict_om(ev) ==
     <<"agree", \A i, j \in I : (ev.cmp[i][j] # 99 /\ ev.cmp[i][j] # 0) => ev.tot[i][j] = ev.cmp[i][j]>> >>)
 
 \* ---------------- family "nd": NumDigits (C19) ----------------
-Verdict_nd(ev) == IF ev.panic # "" THEN {"panic"} ELSE Names(<< <<"numdigits", ev.nd = NumDigits(ev.b)>> >>)
+Verdict_nd(ev) == IF ev.panic # "" THEN {"panic"}
+                  ELSE Names(<< <<"numdigits", ev.nd = (IF ev.p10 >= 0 THEN (IF ev.dl < 0 THEN ev.p10 ELSE ev.p10 + 1)      \* |10^k + dl|, dl small
+                                                        ELSE NumDigits(ev.b))>> >>)
 
 \* ---------------- family "t": text forms (C13 C14, parsing part of C01 C04 C07) ----------------
 WFParsed(d) == d.f \in {FIN, INF, SNAN, QNAN} /\ d.cs >= 0 /\ IsNat(d.c)
@@ -199,6 +222,8 @@ Verdict_cv(ev) ==
          Names(<< <<"codec", ev.ok /\ ev.res.n = ev.d.n /\ ev.res.cs >= 0
                              /\ (IF ev.d.f = SNAN THEN ev.res.f = QNAN ELSE ev.res.f = ev.d.f)
                              /\ (ev.d.f = FIN => (ev.res.c = ev.d.c /\ ev.res.e = ev.d.e))>>,
+                  <<"codec-pre", ev.res2.f = ev.res.f /\ ev.res2.n = ev.res.n
+                                 /\ (ev.res.f = FIN => (ev.res2.c = ev.res.c /\ ev.res2.e = ev.res.e /\ ev.res2.cs >= 0))>>,
                   <<"frame", SameRepr(ev.da, ev.d)>> >>)
        [] OTHER -> {"unknown-cv-event"}
 
